@@ -405,6 +405,63 @@ Definition read_control6 (ws : list warning6) (h : PacketHeader6) (tok : option 
     else (ws, Err E6UnknownControl)
   end.
 
+(* read_impl, connectionless branch: payload = what follows the three header bytes *)
+Definition read_connless6 (ws : list warning6) (bs payload : bytes) : rres6 :=
+  if Z.of_nat (length payload) <? PADDING_SIZE_CONNLESS then (ws, Err E6ShortConnless) else
+  let npad := Z.to_nat PADDING_SIZE_CONNLESS in
+  let padding := firstn npad payload in
+  let pl := {| s_src := Input; s_off := (Z.to_nat HEADER_SIZE + npad)%nat; s_data := skipn npad payload |} in
+  let ws := ws ++ (if negb (all_ff padding) || negb (all_ff (firstn 3 bs)) then [W6ConnlessPadding] else []) in
+  (ws, Ok (P6Connless (s_data pl), [view_of pl])).
+
+(* read_impl: where the payload of a connected packet lives (the input, or the scratch buffer
+   after decompression) *)
+Definition payload_slice6 (decomp : HuffC) (bs : bytes) (cap : option nat) (flags : Z) (payload : bytes)
+  : res rderr6 slice :=
+  if land_ne0 flags PACKETFLAG_COMPRESSION then
+    match cap with
+    | None => Panic site6_read_no_buffer
+    | Some c =>
+      match decompress6 decomp bs c with
+      | Ok scratch =>
+        match PacketHeaderPacked6_of_bytes scratch with
+        | Some (_, pl) => Ok {| s_src := Scratch; s_off := Z.to_nat HEADER_SIZE; s_data := pl |}
+        | None => Panic site6_decompress_unwrap
+        end
+      | Err _ => Err E6Compression
+      | Panic s => Panic s
+      | OutOfFuel => OutOfFuel
+      end
+    end
+  else Ok {| s_src := Input; s_off := Z.to_nat HEADER_SIZE; s_data := payload |}.
+
+(* read_impl from the size check of the (decompressed) payload on *)
+Definition read_payload6 (ws : list warning6) (h : PacketHeader6) (hint : option bool) (p : slice) : rres6 :=
+  let flags := ph6_flags h in
+  if Z.of_nat (length (s_data p)) >? MAX_PACKETSIZE - HEADER_SIZE then (ws, Err E6Compression) else
+  let ack := ph6_ack h in
+  let has_token_r : res Empty_set bool :=
+    match hint with
+    | Some b => Ok b
+    | None => has_token_heuristic6 (land_ne0 flags PACKETFLAG_CONTROL) (ph6_num_chunks h) (s_data p)
+    end in
+  match has_token_r with
+  | Err e => match e with end
+  | Panic s => (ws, Panic s)
+  | OutOfFuel => (ws, OutOfFuel)
+  | Ok has_token =>
+    let len := length (s_data p) in
+    if has_token && (Z.of_nat len <? TOKEN_SIZE) then (ws, Err E6TokenMissing) else
+    let ntok := Z.to_nat TOKEN_SIZE in
+    let p' := if has_token then slice_take (len - ntok) p else p in
+    let tok := if has_token then Some (skipn (len - ntok) (s_data p)) else None in
+    if land_ne0 flags PACKETFLAG_CONTROL then read_control6 ws h tok ack p'
+    else
+      let request_resend := land_ne0 flags PACKETFLAG_REQUEST_RESEND in
+      let ws := ws ++ (if (ph6_num_chunks h =? 0) && negb request_resend then [W6ChunksNoChunks] else []) in
+      (ws, Ok (P6Connected ack tok (P6Chunks request_resend (ph6_num_chunks h) (s_data p')), [view_of p']))
+  end.
+
 (* Packet::read_impl; cap = Some c: a scratch buffer with c bytes remaining was given
    (Packet::read), None: read_panic_on_decompression *)
 Definition read_impl6 (decomp : HuffC) (bs : bytes) (hint : option bool) (cap : option nat) : rres6 :=
@@ -414,60 +471,12 @@ Definition read_impl6 (decomp : HuffC) (bs : bytes) (hint : option bool) (cap : 
   match header_of6 bs with
   | None => ([], Err E6TooShort)
   | Some (h, ws, payload) =>
-    let flags := ph6_flags h in
-    if land_ne0 flags PACKETFLAG_CONNLESS then
-      if Z.of_nat (length payload) <? PADDING_SIZE_CONNLESS then (ws, Err E6ShortConnless) else
-      let npad := Z.to_nat PADDING_SIZE_CONNLESS in
-      let padding := firstn npad payload in
-      let pl := {| s_src := Input; s_off := (Z.to_nat HEADER_SIZE + npad)%nat; s_data := skipn npad payload |} in
-      let ws := ws ++ (if negb (all_ff padding) || negb (all_ff (firstn 3 bs)) then [W6ConnlessPadding] else []) in
-      (ws, Ok (P6Connless (s_data pl), [view_of pl]))
-    else
-    let payload_r : res rderr6 slice :=
-      if land_ne0 flags PACKETFLAG_COMPRESSION then
-        match cap with
-        | None => Panic site6_read_no_buffer
-        | Some c =>
-          match decompress6 decomp bs c with
-          | Ok scratch =>
-            match PacketHeaderPacked6_of_bytes scratch with
-            | Some (_, pl) => Ok {| s_src := Scratch; s_off := Z.to_nat HEADER_SIZE; s_data := pl |}
-            | None => Panic site6_decompress_unwrap
-            end
-          | Err _ => Err E6Compression
-          | Panic s => Panic s
-          | OutOfFuel => OutOfFuel
-          end
-        end
-      else Ok {| s_src := Input; s_off := Z.to_nat HEADER_SIZE; s_data := payload |} in
-    match payload_r with
+    if land_ne0 (ph6_flags h) PACKETFLAG_CONNLESS then read_connless6 ws bs payload else
+    match payload_slice6 decomp bs cap (ph6_flags h) payload with
     | Err e => (ws, Err e)
     | Panic s => (ws, Panic s)
     | OutOfFuel => (ws, OutOfFuel)
-    | Ok p =>
-      if Z.of_nat (length (s_data p)) >? MAX_PACKETSIZE - HEADER_SIZE then (ws, Err E6Compression) else
-      let ack := ph6_ack h in
-      let has_token_r : res Empty_set bool :=
-        match hint with
-        | Some b => Ok b
-        | None => has_token_heuristic6 (land_ne0 flags PACKETFLAG_CONTROL) (ph6_num_chunks h) (s_data p)
-        end in
-      match has_token_r with
-      | Err e => match e with end
-      | Panic s => (ws, Panic s)
-      | OutOfFuel => (ws, OutOfFuel)
-      | Ok has_token =>
-        let len := length (s_data p) in
-        if has_token && (Z.of_nat len <? TOKEN_SIZE) then (ws, Err E6TokenMissing) else
-        let ntok := Z.to_nat TOKEN_SIZE in
-        let p' := if has_token then slice_take (len - ntok) p else p in
-        let tok := if has_token then Some (skipn (len - ntok) (s_data p)) else None in
-        if land_ne0 flags PACKETFLAG_CONTROL then read_control6 ws h tok ack p'
-        else
-          let request_resend := land_ne0 flags PACKETFLAG_REQUEST_RESEND in
-          let ws := ws ++ (if (ph6_num_chunks h =? 0) && negb request_resend then [W6ChunksNoChunks] else []) in
-          (ws, Ok (P6Connected ack tok (P6Chunks request_resend (ph6_num_chunks h) (s_data p')), [view_of p']))
-      end
+    | Ok p => read_payload6 ws h hint p
     end
   end.
 
